@@ -6,6 +6,11 @@
     S <cmd> <mode> <specs> <setup> <probe> <arg>* ( | <arg>* )*   equivalent spellings of one invocation
     M <cmd> <mode> <specs> <setup> <probe> <arg>*                 a malformed invocation
     G <optstring> <arg>*                          `while getopts optstring v arg…` run to the end
+    T <portable> <names> <arg>*                   set/syntax.rs `parse`
+    H <names> <argv0> <arg>*                      startup/args.rs `parse` (the shell's own command line)
+    K <portable> <sigterm> <names> <arg>*         kill/syntax.rs `parse`
+  <names> = `_` or comma-separated answers of yash_env::option / Signals::str2sig:
+            s:<char>:<opt>:<state>  l:<raw>:N|A|<opt>:<state>  o:<opt>:<modifiable>:<portable short c.state|~>:<portable long n.state|~>  g:<NAME>:<number>
   <mode>  = three bits: long_option_names, extension_options, option_arguments_in_same_field
   <specs> = `_` (empty table) or comma-separated `<short>:<long>:<takesArg>:<extension>`
 -/
@@ -13,6 +18,8 @@ import YashModel.Common.Proto
 import YashModel.Args.Model
 import YashModel.Args.Spec
 import YashModel.Args.Getopts
+import YashModel.Args.Bespoke
+import YashModel.Args.BespokeSpec
 open YashModel YashModel.Args YashModel.Proto
 
 def parseBit (c : Char) : Option Bool :=
@@ -118,6 +125,118 @@ def runGetopts (spec : Str) (args : List Str) : String :=
   let verdict := if showGObs o = showGObs s then "ok" else s!"FAIL:separated-spelling-gives {showGObs s}"
   showGetopts r ++ "\t" ++ verdict
 
+/-! bespoke parsers: set, the shell's command line, kill -/
+
+open YashModel.Args.Bespoke in
+def parseNames (t : String) : Option Names :=
+  if t = "_" then some {} else
+  (t.splitOn ",").foldlM (init := ({} : Names)) fun nm e =>
+    match e.splitOn ":" with
+    | ["s", c, o, st] => do
+      let c ← decChars c
+      let c ← c.head?
+      let o ← decChars o
+      let st ← st.toList.head? >>= parseBit
+      pure { nm with short := nm.short ++ [(c, o, st)] }
+    | ["l", r, "N"] => do pure { nm with long := nm.long ++ [(← decChars r, .noSuch)] }
+    | ["l", r, "A"] => do pure { nm with long := nm.long ++ [(← decChars r, .ambiguous)] }
+    | ["l", r, o, st] => do
+      let st ← st.toList.head? >>= parseBit
+      pure { nm with long := nm.long ++ [(← decChars r, .ok (← decChars o) st)] }
+    | ["o", o, m, ps, pl] => do
+      let m ← m.toList.head? >>= parseBit
+      let pair (x : String) : Option (Option (List Char × Bool)) :=
+        if x = "~" then some none else
+        match x.splitOn "." with
+        | [n, st] => do pure (some (← decChars n, ← st.toList.head? >>= parseBit))
+        | _ => none
+      let ps ← pair ps
+      let pl ← pair pl
+      let ps' ← match ps with
+        | none => some none
+        | some ([c], st) => some (some (c, st))
+        | _ => none
+      pure { nm with info := nm.info ++ [(← decChars o, { modifiable := m, portShort := ps', portLong := pl })] }
+    | ["g", n, v] => do pure { nm with sig := nm.sig ++ [(← decChars n, ← v.toInt?)] }
+    | _ => none
+
+def showOpts (os : List (Str × Bool)) : String :=
+  ";".intercalate (os.map fun (o, st) => s!"{String.ofList o}={bit st}")
+
+def showStrs (l : List Str) : String := ",".intercalate (l.map encChars)
+
+open YashModel.Args.Bespoke in
+def showSet : Except SetErr SetCmd → String
+  | .ok .printVariables => "ok vars"
+  | .ok .printHuman => "ok human"
+  | .ok .printMachine => "ok machine"
+  | .ok (.modify os ps) =>
+    let p := match ps with | none => "~" | some l => s!"[{showStrs l}]"
+    s!"ok modify [{showOpts os}] params={p}"
+  | .error e => match e with
+    | .unknownShort c => s!"err:unknownShort:{encChars [c]}"
+    | .unknownLong => "err:unknownLong"
+    | .ambiguousLong => "err:ambiguousLong"
+    | .missingArgument => "err:missingArgument"
+    | .unmodifiableShort c => s!"err:unmodifiableShort:{encChars [c]}"
+    | .unmodifiableLong => "err:unmodifiableLong"
+    | .nonPortableShort c => s!"err:nonPortableShort:{encChars [c]}"
+    | .nonPortableLong => "err:nonPortableLong"
+    | .unseparated => "err:unseparated"
+
+open YashModel.Args.Bespoke in
+def showSh : Except ShErr ShParse → String
+  | .ok .help => "ok help"
+  | .ok .version => "ok version"
+  | .ok (.run r) =>
+    let src := match r.source with | .stdin => "stdin" | .file p => s!"file:{encChars p}" | .string p => s!"string:{encChars p}"
+    let ini : InitFile → String := fun i => match i with | .none => "none" | .default => "default" | .file p => s!"file:{encChars p}"
+    s!"ok run src={src} profile={ini r.profile} rcfile={ini r.rcfile} opts=[{showOpts r.options}] arg0={encChars r.arg0} params=[{showStrs r.params}]"
+  | .error e => match e with
+    | .unknownShort c => s!"err:unknownShort:{encChars [c]}"
+    | .unknownLong => "err:unknownLong"
+    | .ambiguousLong => "err:ambiguousLong"
+    | .missingArgument => "err:missingArgument"
+    | .unexpectedArgument => "err:unexpectedArgument"
+    | .conflictingSources => "err:conflictingSources"
+    | .unnegatableShort c => s!"err:unnegatableShort:{encChars [c]}"
+    | .unnegatableLong => "err:unnegatableLong"
+    | .missingCommandString => "err:missingCommandString"
+    | .nonPortableShort c => s!"err:nonPortableShort:{encChars [c]}"
+    | .nonPortableShortNegation c => s!"err:nonPortableShortNegation:{encChars [c]}"
+    | .nonPortableLong => "err:nonPortableLong"
+    | .unseparated => "err:unseparated"
+
+open YashModel.Args.Bespoke in
+def showKill : Except KillErr KillCmd → String
+  | .ok (.send sig o ts) => s!"ok send {sig} origin={bit o} [{showStrs ts}]"
+  | .ok (.print ss v) => s!"ok print [{showStrs ss}] verbose={bit v}"
+  | .error e => match e with
+    | .unknownOption => "err:unknownOption"
+    | .nonPortableOption c => s!"err:nonPortableOption:{encChars [c]}"
+    | .conflictingOptions c => s!"err:conflictingOptions:{encChars [c]}"
+    | .missingSignal c => s!"err:missingSignal:{encChars [c]}"
+    | .unseparatedSignalArgument => "err:unseparatedSignalArgument"
+    | .nonPortableSignalNumber n => s!"err:nonPortableSignalNumber:{n}"
+    | .nonPortableSignalPrefix => "err:nonPortableSignalPrefix"
+    | .multipleSignals => "err:multipleSignals"
+    | .invalidSignal => "err:invalidSignal"
+    | .multipleListOperands => "err:multipleListOperands"
+    | .nonPortableListOperand => "err:nonPortableListOperand"
+    | .missingTarget => "err:missingTarget"
+
+def hasSub (s pat : String) : Bool := (s.splitOn pat).length > 1
+
+/-- observation, then: `ok` if the separated spelling gives the same; `-` if they differ while the
+    `portable` option is (or is being turned) on — there the attached / long forms are rejected by
+    design; `FAIL` otherwise -/
+def specCompare (portable : Bool) (a b : String) : String :=
+  let verdict :=
+    if a = b then "ok"
+    else if portable || hasSub a "portable=1" || hasSub b "portable=1" then "-"
+    else s!"FAIL:separated-spelling-gives {b}"
+  a ++ "\t" ++ verdict
+
 def runLine (line : String) : String :=
   match words line with
   | "P" :: m :: sp :: args =>
@@ -150,6 +269,18 @@ def runLine (line : String) : String :=
          | none => match r with | .error _ => "ok" | .ok _ => "FAIL:malformed-accepted"
        obs ++ "\t" ++ spec
      | _, _, _ => "bad-case\t-")
+  | "T" :: p :: nm :: args =>
+    (match p.toList.head? >>= parseBit, parseNames nm, args.mapM decChars with
+     | some p, some nm, some args => specCompare p (showSet (Bespoke.setParse nm p args)) (showSet (Bespoke.setParse nm p (Bespoke.separateSO true args)))
+     | _, _, _ => "bad-case\t-")
+  | "H" :: nm :: args =>
+    (match parseNames nm, args.mapM decChars with
+     | some nm, some args => specCompare false (showSh (Bespoke.shParse nm args)) (showSh (Bespoke.shParse nm (match args with | a0 :: r => a0 :: Bespoke.separateSO false r | [] => [])))
+     | _, _ => "bad-case\t-")
+  | "K" :: p :: st :: nm :: args =>
+    (match p.toList.head? >>= parseBit, st.toInt?, parseNames nm, args.mapM decChars with
+     | some p, some st, some nm, some args => specCompare p (showKill (Bespoke.killParse nm p st args)) (showKill (Bespoke.killParse nm p st (Bespoke.separateKill nm args)))
+     | _, _, _, _ => "bad-case\t-")
   | "G" :: sp :: args =>
     (match decChars sp, args.mapM decChars with
      | some spec, some args => runGetopts spec args
